@@ -62,7 +62,7 @@ func NumberText() *rapid.Generator[string] {
 		case 0, 1, 2, 3:
 			return rapid.SampledFrom(numTexts).Draw(t, "numtext")
 		case 4, 5, 6:
-			return itoa(rapid.IntRange(-5, 12).Draw(t, "smallint"))
+			return itoa(rapid.IntRange(-2, 6).Draw(t, "smallint"))
 		case 7:
 			return itoa(rapid.IntRange(-1000000, 1000000).Draw(t, "int"))
 		case 8:
@@ -232,6 +232,10 @@ func drawValue(t *rapid.T, ty cty.Type, o ValOpts) cty.Value {
 	case ty == cty.String:
 		if o.Hostile {
 			return cty.StringVal(HostileString().Draw(t, "str"))
+		}
+		if rapid.IntRange(0, 2).Draw(t, "keyish") == 0 {
+			// strings that are likely to be keys of generated objects/maps
+			return cty.StringVal(rapid.SampledFrom([]string{"a", "b", "foo", "id", "name", "0", "1"}).Draw(t, "keystr"))
 		}
 		return cty.StringVal(SimpleString().Draw(t, "str"))
 	case ty == cty.Number:
